@@ -326,14 +326,18 @@ def case_select(ctx, spec):
         t0 = now - dt.timedelta(days=p["lag"]["days"])
         f = spec["frames"]["st"]
         fdates = [_ts(d) for d in f["dates"]]
-        by_name_shift = p["by_name"]  # frames bound by name and sharing the data index get the synthetic row; these have their own index
+        cols = f["cols"]
+        if p["by_name"] and f["dates"] == ds:
+            # a frame bound by name that shares the data's index is given the synthetic all-NaN first row by Backtest
+            fdates = [_ts(ds[0]) - dt.timedelta(days=1)] + fdates
+            cols = {t: [None] + list(v) for t, v in cols.items()}
         if t0 in fdates:
             k = fdates.index(t0)
             if not ret:
                 raise Violation("SetStat returned False although %s is in the stat index" % t0, signature=sig + ":ret")
             gstat = strat.temp.get("stat")
             for t in uni:
-                e = f["cols"][t][k]
+                e = cols[t][k]
                 g = gstat[t]
                 if (e is None) != (g != g) or (e is not None and g != e):
                     raise Violation("SetStat lag %s at %s: stat[%s]=%r, expected %r (row of %s)" % (p["lag"], ds[i], t, g, e, t0), signature=sig + ":value")
